@@ -34,11 +34,13 @@ CLAIMS['C17'] = dict(
          'strings under C15/C20 units; native sweep through main() is a bounded stand-in only',
     design_ref='DESIGN.md §5 C17')
 CLAIMS['C07'] = dict(
-    text='Proof: compute_rhs is a fold whose step is linear in the voltage (doubled exactly on grounded pulses), '
+    text='Proof: compute_rhs is a fold whose step is linear in the voltage (doubled exactly on grounded pulses); independently of how it is written, '
+         'executed for two sources on two of three pulses in both orders it puts each voltage at the pulse its source names; '
          'compute_currents = solve(Z, rhs), compute runs the four stages in order and sums the source powers (executed for two sources with symbolic '
          'complex voltages on every pulse assignment: the total is the NET input power, sum of Re(V conj I)/2, signed), '
          'Excitation.current/power/impedance and the seven numbers of the source block are V/I and Re(VI*)/2; the '
-         'matrix fill never reads source data (frame). Clause not decided: dBi invariance under scaling.',
+         'matrix fill never reads source data (frame); nothing derived from a voltage is kept between registration and solve (state inventory of C14). '
+         'Clause not decided: dBi invariance under scaling.',
     note='solve() linear in b (LAPACK) and the transparency of the measure_time decorator are assumed; floats as reals',
     design_ref='DESIGN.md §5 C07')
 CLAIMS['C08'] = dict(
@@ -150,8 +152,9 @@ CLAIMS['C20'] = dict(
          'order of application (equal sort keys included), --phi, --theta, --near-field. The range test of -f is proved in IEEE-754 semantics (z3 '
          'FloatingPoint: whatever passes is a finite number in (0, 1e100); nan and inf are rejected). The constructors the load readers call never divide '
          'by zero at a positive frequency (series RLC, explicit C = 0 included) and only build positive conductivities (units shared with C08). The numeric '
-         'stage, the other frequency options and the sweep loop are exercised by an exhaustive, deterministic native fuzz (1056 argument lists = every option x '
-         'field x bad value); 2 open findings (C20-nonfinite with its 176 members listed literally, C20-taper-assert).',
+         'stage and the other frequency options are exercised natively only; the sweep loop runs at least once for every accepted '
+         'step count, and an iteration of a reader loop leaves nothing for the next but the loop\'s declared result (frame unit). The native fuzz is '
+         'exhaustive and deterministic (1056 argument lists = every option x field x bad value); 2 open findings (C20-nonfinite with its 176 members listed literally, C20-taper-assert).',
     note='clause-only claim; argparse axioms; constructor raises clauses as summarised',
     design_ref='DESIGN.md §5 C20')
 CLAIMS['C15'] = dict(
